@@ -84,7 +84,7 @@ theorem others_nodes_same (n : Int) {f : St → St} (h : ∀ s, (f s).nodes = s.
 
 theorem othersRecordsKept_stepRel (m : Msg) : StepRel (OthersRecordsKept m.node) m where
   pre := othersRecordsKept_preO m.node
-  write := fun line => Rel.transportWrite (fun _ _ _ h => ⟨rfl, h⟩) line
+  write := fun _ _ => Rel.transportWrite (fun _ _ _ h => ⟨rfl, h⟩) _
   setNode := fun node => Rel.modifySt _ fun s k hk hh => by
     simp only [PDict.has] at hh ⊢
     rw [PDict.get?_set_ne _ _ hk]; exact ⟨rfl, hh⟩
